@@ -11,7 +11,9 @@
 (***************************************************************************)
 EXTENDS CurlP81, B1T, BigNat
 
-PowBlock(digest, nonce8) == B6Encode(digest) \o B6Encode(nonce8) \o <<0, 0, 0>>
+\* (the digest of the configured hash function - 32 bytes for the default BLAKE2b-256, fewer for e.g. SHA-224 or SHA-1 -
+\* then the nonce, then zero trits up to one Curl block)
+PowBlock(digest, nonce8) == LET b == B6Encode(digest) \o B6Encode(nonce8) IN b \o [i \in 1..(243 - Len(b)) |-> 0]
 PowHash(digest, nonce8) == SpongeOut(<<PowBlock(digest, nonce8)>>, 1, N81, R81)
 
 TrailingZeros(h) ==
